@@ -92,6 +92,7 @@ func runC05(c *Ctx, r *Report) {
 	r.Rule("C05.R7", "no stale alias: in a function that writes a register slot (through (*Register).Ptr()), no loop-carried value may be an unsanitised evaluation result (a *Register kept across iterations changes when the slot is rewritten)")
 	r.Rule("C05.R8", "release only what was acquired: the Register passed to ReleaseRegister comes from MakeRegister, or from a wrapper that acquires on every return path, or from a wrapper whose only non-acquiring exit is its HasRegisters() fallback and whose call is guarded by HasRegisters() on the same environment")
 	r.Rule("C05.R9", "nested functions stop the register rewrite: every return of ModifyRegister's *ast.FunctionLiteral arm returns cont = false (the rewriter is post-order, a nested body is already rewritten when the arm runs)")
+	r.Rule("C05.R10", "identifier tests and the rewrite: the register rewriter replaces identifiers by *Register nodes (token REGISTER) anywhere in a body; every test of a node's token type against IDENT in package eval therefore either accepts REGISTER as well (same value, same condition or switch), or concerns a parent construct for which ModifyRegister aborts the rewrite when the child is the register (postfix/prefix ++ --, del(x), for x = ...), or is a named site where an integer-valued name is an error with or without registers")
 	r.Rule("C05.R5", "fallback instead of failure: when setupRegister reports !ok the caller takes the variable path instead of returning an error")
 
 	makeReg := c.Fn("object", "Environment.MakeRegister")
@@ -657,6 +658,9 @@ func runC05(c *Ctx, r *Report) {
 		r.Floor("C05.R9", 1)
 	}
 
+	// R10: wherever the evaluator insists on an identifier token, the register rewrite is accounted for
+	c.checkIdentTests(r)
+
 	// shared C13.R1: setupRegister rewrites a *copy* of the body; ast.Modify must not write into its input
 	// (only when C05 itself is being decided: other properties that share C05 rules do not need it)
 	if r.Prop == "C05" && !r.Sub {
@@ -985,4 +989,129 @@ func init() {
 		assume:  []string{"containers and bindings hold no *Register initially (the invariant the taint rule maintains)", "calls through function values are not followed for taint (extension callbacks receive arguments already copied by evalExpressions)"},
 		run:     runC05,
 	})
+}
+
+// identTestSites: IDENT-only token tests that need no REGISTER counterpart, with the reason.
+var identTestSites = map[string]string{
+	"eval.(*State).evalIndexAssigment": "a[i] = v on a name that holds an integer (the only names that get registers) is an error in both configurations",
+	"eval.(*State).deleteMapEntry":     "del(m[k]) on a name that holds an integer is an error in both configurations",
+}
+
+// identTestAborts: IDENT-only tests covered by an abort arm of ModifyRegister for the parent node type.
+var identTestAborts = map[string]string{
+	"eval.(*State).evalPrefixIncrDecr":   "PrefixExpression",
+	"eval.(*State).evalPostfixExpression": "PostfixExpression",
+	"eval.(*State).evalDelete":           "Builtin",
+	"eval.(*State).evalForSpecialForms":  "ForExpression",
+}
+
+func (c *Ctx) checkIdentTests(r *Report) {
+	identK, ok1 := constInt64(c.Const("token", "IDENT"))
+	regK, ok2 := constInt64(c.Const("token", "REGISTER"))
+	if !ok1 || !ok2 {
+		r.Undecided("C05.R10: token.IDENT / token.REGISTER not found")
+		return
+	}
+	// abort arms of ModifyRegister: node types with a path returning cont=false
+	mr := c.SSAFn(c.Fn("eval", "ModifyRegister"))
+	aborts := map[string]bool{}
+	eachInstr(mr, func(in ssa.Instruction) {
+		ta, ok := in.(*ssa.TypeAssert)
+		if !ok || !ta.CommaOk {
+			return
+		}
+		p, ok := ta.AssertedType.(*types.Pointer)
+		if !ok {
+			return
+		}
+		n, ok := p.Elem().(*types.Named)
+		if !ok {
+			return
+		}
+		arm := ta.Block().Succs[0]
+		for _, b := range mr.Blocks {
+			if !(b == arm || arm.Dominates(b)) {
+				continue
+			}
+			if ret, ok := b.Instrs[len(b.Instrs)-1].(*ssa.Return); ok && len(ret.Results) == 2 {
+				if k, ok := retVal(ret, 1).(*ssa.Const); ok && k.Value != nil && k.Value.ExactString() == "false" {
+					aborts[n.Obj().Name()] = true
+				}
+			}
+		}
+	})
+	n := 0
+	for _, fn := range c.ModuleSSAFuncs() {
+		top := fn
+		for top.Parent() != nil {
+			top = top.Parent()
+		}
+		if top.Pkg == nil || shortPkg(top.Pkg.Pkg) != "eval" {
+			continue
+		}
+		fname := ssaFuncName(fn)
+		// token-type values compared with IDENT in this function, and those compared with REGISTER
+		identCmp := map[ssa.Value]ssa.Instruction{}
+		regCmp := map[ssa.Value]bool{}
+		eachInstr(fn, func(in ssa.Instruction) {
+			bin, ok := in.(*ssa.BinOp)
+			if !ok || (bin.Op != token.EQL && bin.Op != token.NEQ) {
+				return
+			}
+			k, ok := constInt(bin.Y)
+			if !ok {
+				return
+			}
+			call, ok := bin.X.(*ssa.Call)
+			if !ok {
+				return
+			}
+			obj := calleeObj(call)
+			if obj == nil || obj.Name() != "Type" || obj.Pkg() == nil || shortPkg(obj.Pkg()) != "token" {
+				return
+			}
+			switch k {
+			case identK:
+				identCmp[call] = in
+			case regK:
+				regCmp[call] = true
+			}
+		})
+		cnt := 0
+		for tv, at := range identCmp {
+			n++
+			cnt++
+			desc := "token test against IDENT"
+			if cnt > 1 {
+				desc = fmt.Sprintf("token test against IDENT #%d", cnt)
+			}
+			// same token value also compared with REGISTER, or another Type() call on the same token
+			okReg := regCmp[tv]
+			if !okReg {
+				tcall := tv.(*ssa.Call)
+				for other := range regCmp {
+					oc := other.(*ssa.Call)
+					if len(oc.Common().Args) > 0 && len(tcall.Common().Args) > 0 && (oc.Common().Args[0] == tcall.Common().Args[0] || sameExpr(oc.Common().Args[0], tcall.Common().Args[0])) {
+						okReg = true
+					}
+				}
+			}
+			switch {
+			case okReg:
+				r.OkWhy("C05.R10", fname, desc, c.Pos(at.Pos()), "REGISTER is accepted alongside")
+			case identTestAborts[fname] != "":
+				parent := identTestAborts[fname]
+				r.Check(aborts[parent], "C05.R10", fname, desc, c.Pos(at.Pos()),
+					"this test rejects a name that was rewritten to its register, and ModifyRegister has no abort arm for *ast."+parent+" any more: the construct works without registers and fails (not an identifier: REGISTER) with them")
+			case identTestSites[fname] != "":
+				r.OkWhy("C05.R10", fname, desc, c.Pos(at.Pos()), "reviewed: "+identTestSites[fname])
+			default:
+				r.Fail("C05.R10", fname, desc, c.Pos(at.Pos()), "the evaluator accepts only token.IDENT here; inside a function or counted loop the same name may have been rewritten to a *Register node (token REGISTER): the construct then fails with registers and works without (p.x with a parameter named x, del(x), for x = ..., ++x). Accept REGISTER as well, or make ModifyRegister abort for the parent construct")
+			}
+		}
+	}
+	if n < 6 {
+		r.Undecided("C05.R10: only %d IDENT token tests found in package eval", n)
+	}
+	r.Floor("C05.R10", 6)
 }
